@@ -39,21 +39,26 @@ GEOM_DEVS = ("BoxAsWritten", "RealRotateIgnored", "CropNotClipped")
 EXT_DEVS = ("RealRotateIgnored", "CropNotClipped")     # outside C04's statement: differences are NOTE lines (extended coverage)
 TREE_ACTIONS = ["AReveal", "ASkipVisited", "AEnterPages", "AEnterPage", "AEnterOther", "ALoopKid", "ALoopEnd",
                 "ASelSkip", "ASelYield"]
-GEOM_ACTIONS = ["AParseBox", "AParseCrop", "AParseRotate", "ACtm90", "ACtm180", "ACtm270", "ACtmElse", "ABeginPage", "ARenderMark"]
+GEOM_ACTIONS = ["AParseBox", "AParseCrop", "AParseRotate", "AAddRotation", "ACtm90", "ACtm180", "ACtm270", "ACtmElse", "ABeginPage", "ARenderMark"]
 TREE_INVARIANTS = ["TypeOK", "DFSOrder", "NearestAncestor", "VisitedOnce", "Selection", "SelectionSane", "LoopShape", "LabelByIndex"]
 ALLK = '{"Pages", "Page", "Other"}'
 
-PLAIN = dict(RForms="<- IntOnly", UserUnits="<- NoUnit", Crops="<- NoCrop")
+PLAIN = dict(RForms="<- IntOnly", UserUnits="<- NoUnit", Crops="<- NoCrop", Rotations="<- NoRotation")
 GEOM_CONFIGS = {
     "quick": [dict(name="boxes", Xs="<- XsSmall", Ys="<- YsSmall", Ws="{2, 3}", Hs="{2, 5}", Orders="<- OrdersAll",
                    Rotates="<- RotatesSmall", Marks="<- MarksSmall", **PLAIN),
               # Rotate written as a real number, /UserUnit, /CropBox inside / beyond the MediaBox
               dict(name="extras", Xs="<- XsTwo", Ys="<- YsOne", Ws="{2, 3}", Hs="{2}", Orders="<- OrdersPlain", Rotates="<- RotatesFew",
-                   Marks="<- MarksOne", RForms="<- BothForms", UserUnits="<- Units", Crops="<- AllCrops")],
+                   Marks="<- MarksOne", RForms="<- BothForms", UserUnits="<- Units", Crops="<- AllCrops", Rotations="<- NoRotation"),
+              # extract_text_to_fp(rotation=...) x the page's own / inherited Rotate, MediaBox off the origin
+              dict(name="rotation", Xs="<- XsOff", Ys="<- YsOne", Ws="{2, 3}", Hs="{2, 5}", Orders="<- OrdersPlain", Rotates="<- RotatesPlain",
+                   Marks="<- MarksOne", RForms="<- IntOnly", UserUnits="<- NoUnit", Crops="<- NoCrop", Rotations="<- RotationArgs")],
     "thorough": [dict(name="boxes", Xs="<- XsFull", Ys="<- YsFull", Ws="{1, 2, 3}", Hs="{2, 4, 5}", Orders="<- OrdersAll",
                       Rotates="<- RotatesFull", Marks="<- MarksFull", **PLAIN),
                  dict(name="extras", Xs="<- XsSmall", Ys="<- YsSmall", Ws="{2, 3}", Hs="{2, 5}", Orders="<- OrdersAll", Rotates="<- RotatesSmall",
-                      Marks="<- MarksOne", RForms="<- BothForms", UserUnits="<- Units", Crops="<- AllCrops")],
+                      Marks="<- MarksOne", RForms="<- BothForms", UserUnits="<- Units", Crops="<- AllCrops", Rotations="<- NoRotation"),
+                 dict(name="rotation", Xs="<- XsSmall", Ys="<- YsSmall", Ws="{2, 3}", Hs="{2, 5}", Orders="<- OrdersPlain", Rotates="<- RotatesSmall",
+                      Marks="<- MarksOne", RForms="<- IntOnly", UserUnits="<- NoUnit", Crops="<- NoCrop", Rotations="<- RotationArgs")],
 }
 
 
@@ -234,6 +239,8 @@ def run_geom_tlc(ck, tier, dev, tmp, label="geometry"):
                 os.remove(emit)
                 if not recs:
                     raise MachineryError("PageGeom emitted no terminal state")
+                for r in recs:
+                    r["conf"] = conf["name"]
         allrecs += recs or []
     return allrecs
 
@@ -243,7 +250,7 @@ class GeomTable:
         self.by_key = {}
         self.rot = {}
         for r in recs:
-            if r.get("rform", "int") != "int" or r.get("uu", 1) != 1 or r.get("cropw"):
+            if r.get("rform", "int") != "int" or r.get("uu", 1) != 1 or r.get("cropw") or r.get("rotation", 0) != 0:
                 continue            # the table serves the tree replays: plain pages only
             self.by_key[(tuple(r["boxw"]), r["rraw"], tuple(r["pt"]))] = r
             self.rot[r["rraw"]] = r["rotate"]
@@ -374,6 +381,90 @@ def eval_geom_batch(recs, variant):
                              % (r["boxw"], r["rraw"], len(ch))))
             continue
         drift += judge_geometry(r, lt.bbox, ch[0][1], findings, where)
+    return findings, drift, len(recs)
+
+
+def eval_rotation_batch(recs, variant):
+    """PageGeom terminal states that share one `rotation` argument, as the pages of one document run through
+    high_level.extract_text_to_fp(output_type="xml", rotation=r).  variant 0: every page carries its own /Rotate;
+    variant 1: each page inherits it from a Pages node of its own.  Observed: the page.rotate process_page is given
+    (wrapper installed for the call), and from the XML the page box and the marker glyph's box - the latter compared
+    with the same document carrying (Rotate + rotation) mod 360 as the model has it, run with rotation=0."""
+    import io as _io
+    from ..realise.pdfwriter import Name, Ref, Revision, Stream, build, type1_font
+    from pdfminer import high_level
+    from pdfminer.layout import LAParams
+    findings, drift = [], 0
+    rotation = recs[0]["rotation"]
+
+    def document(rot_of):
+        objs = {1: {"Type": Name("Catalog"), "Pages": Ref(2)}, 3: type1_font("Helvetica")}
+        kids = []
+        nid = 4
+        for r in recs:
+            px, py = (RT.SCALE * v for v in r["pt"])
+            objs[nid] = Stream({}, b"BT /F1 10 Tf 1 0 0 1 %d %d Tm (M) Tj ET" % (px, py))
+            page = {"Type": Name("Page"), "Parent": Ref(2), "MediaBox": [RT.SCALE * v for v in r["boxw"]], "Contents": Ref(nid),
+                    "Resources": {"Font": {"F1": Ref(3)}}}
+            if variant == 0:
+                page["Rotate"] = rot_of(r)
+                objs[nid + 1] = page
+                kids.append(Ref(nid + 1))
+            else:
+                page["Parent"] = Ref(nid + 2)
+                objs[nid + 1] = page
+                objs[nid + 2] = {"Type": Name("Pages"), "Parent": Ref(2), "Kids": [Ref(nid + 1)], "Count": 1, "Rotate": rot_of(r)}
+                kids.append(Ref(nid + 2))
+            nid += 3
+        objs[2] = {"Type": Name("Pages"), "Kids": kids, "Count": len(recs)}
+        return build([Revision(dict(sorted(objs.items())), root=Ref(1))])[0]
+
+    def run(data, rot):
+        seen = []
+        cls = OB.PDFPageInterpreter
+        orig = cls.process_page
+
+        def process_page(self, page):
+            seen.append(page.rotate)
+            return orig(self, page)
+        cls.process_page = process_page
+        try:
+            out = _io.BytesIO()
+            high_level.extract_text_to_fp(_io.BytesIO(data), out, output_type="xml", codec="utf-8", laparams=LAParams(), rotation=rot)
+        finally:
+            cls.process_page = orig
+        text = out.getvalue().decode("utf-8")
+        pages = re.findall(r'<page id="\d+" bbox="([^"]*)"[^>]*>(.*?)</page>', text, re.S)
+        res = []
+        for bbox, body in pages:
+            glyphs = re.findall(r'<text font="[^"]*" bbox="([^"]*)"[^>]*>M</text>', body)
+            res.append((tuple(float(x) for x in bbox.split(",")), [tuple(float(x) for x in g.split(",")) for g in glyphs]))
+        return seen, res
+
+    detail = "%d pages, extract_text_to_fp(rotation=%d), Rotate %s" % (len(recs), rotation, "own" if variant == 0 else "inherited")
+    ok, a = guarded("extract_text_to_fp", lambda: run(document(lambda r: r["rraw"]), rotation), findings, detail)
+    ok2, b = guarded("extract_text_to_fp", lambda: run(document(lambda r: r["rotate"]), 0), findings, detail + " (reference document)")
+    if not (ok and ok2):
+        return findings, drift, 0
+    (rot_a, pages_a), (rot_b, pages_b) = a, b
+    if len(pages_a) != len(recs) or len(pages_b) != len(recs) or len(rot_a) != len(recs):
+        findings.append(("order", "extract_text_to_fp wrote %d / %d pages for %d" % (len(pages_a), len(pages_b), len(recs))))
+        return findings, drift, 0
+    for r, rot, (bbox, glyphs), (bbox_b, glyphs_b) in zip(recs, rot_a, pages_a, pages_b):
+        what = "Rotate %d (%s) with rotation=%d on MediaBox %s" % (r["rraw"], "own" if variant == 0 else "inherited", rotation, r["boxw"])
+        if not (isinstance(rot, int) and 0 <= rot < 360 and (rot - r["rraw"] - rotation) % 360 == 0):
+            findings.append(("rotate-range:rotation-argument", "%s: process_page is given page.rotate = %r, expected %d" % (what, rot, r["refrot"])))
+            continue
+        if rot != r["rotate"]:
+            drift += 1
+        if r["applies"]:
+            if bbox != scaled(r["page"]):
+                findings.append(("boxlands:rotation-argument:page", "%s: the page box is %s, turned by %d it is %s" % (what, bbox, r["refrot"], scaled(r["page"]))))
+            elif len(glyphs) != 1 or glyphs != glyphs_b:
+                findings.append(("boxlands:rotation-argument:glyph", "%s: the marker glyph's box is %s; on the same page carrying Rotate %d it is %s"
+                                 % (what, glyphs, r["refrot"], glyphs_b)))
+        elif bbox != scaled(r["bbox"]):
+            drift += 1
     return findings, drift, len(recs)
 
 
@@ -646,7 +737,45 @@ def pool(n=None):
     return multiprocessing.get_context("fork").Pool(n or min(12, os.cpu_count() or 2))
 
 
+def _rot_chunk(args):
+    key, lo, hi, variant = args
+    return (key, lo, hi, variant) + eval_rotation_batch(_G["rot"][key][lo:hi], variant)
+
+
+def replay_rotation(ck, recs):
+    """the states of the `rotation` configuration: grouped by the rotation argument, each group run with the page's own
+    and with an inherited /Rotate"""
+    groups = {}
+    for r in recs:
+        groups.setdefault(r["rotation"], []).append(r)
+    _G["rot"] = groups
+    step = 40
+    tasks = [(key, lo, min(lo + step, len(g)), v) for key, g in groups.items() for lo in range(0, len(g), step) for v in (0, 1)]
+    drift = 0
+    with pool() as p:
+        for key, lo, hi, variant, findings, d, n in p.imap_unordered(_rot_chunk, tasks):
+            drift += d
+            for k, what in findings:
+                report(ck, k, what, {"kind": "rotation", "recs": groups[key][lo:hi], "variant": variant})
+            ck.replayed += n
+            for r in groups[key][lo:hi]:
+                ck.case(1, ("R", tuple(r["boxw"]), r["rraw"], r["rotation"], variant) if (r["rotation"] % 360 != 0 and r["rraw"] % 360 != 0) else None)
+    if recs:
+        r = [x for x in recs if x["rotation"] == 180 and x["rraw"] == 270][:1] or recs[:1]
+        ck.sample({"MediaBox_units": r[0]["boxw"], "Rotate": r[0]["rraw"], "rotation_argument": r[0]["rotation"], "model_rotate": r[0]["rotate"],
+                   "model_page_box": r[0]["bbox"], "model_marker": r[0]["mpt"]})
+    return drift
+
+
 def replay_geometry(ck, grecs):
+    rot = [r for r in grecs if r.get("conf") == "rotation"]
+    grecs = [r for r in grecs if r.get("conf") != "rotation"]
+    drift0 = replay_rotation(ck, rot) if rot else 0
+    ck.extra["rotation_argument_cases"] = len(rot)
+    return drift0 + _replay_geometry(ck, grecs)
+
+
+def _replay_geometry(ck, grecs):
     _G["grecs"] = grecs
     step = 48
     tasks = [(lo, min(lo + step, len(grecs)), (lo // step) % 2) for lo in range(0, len(grecs), step)]
@@ -1049,6 +1178,9 @@ def replay(path):
         kind = case.get("kind")
         if kind == "geom":
             findings, _, _ = eval_geom_batch(case["recs"], case["variant"])
+            bad = findings
+        elif kind == "rotation":
+            findings, _, _ = eval_rotation_batch(case["recs"], case["variant"])
             bad = findings
         elif kind == "tree":
             geom = GeomTable(run_geom_tlc(None, "thorough" if case.get("config", "").startswith("simulate") else "quick", dev, tmp))
